@@ -37,8 +37,6 @@ func New(numWorkers ...int) *Worker {
 	return w
 }
 
-const ln3 = 1.098612288668109691395245236922525704647490557822749451734694333 // https://oeis.org/A002391
-
 // Mine performs the PoW for data.
 // It returns a nonce that appended to data results in a PoW score of at least targetScore.
 // The computation can be canceled anytime using ctx.
@@ -67,7 +65,7 @@ func (w *Worker) Mine(ctx context.Context, data []byte, targetScore float64) (ui
 	}()
 
 	// compute the minimum numbers of trailing zeros required to get a PoW score ≥ targetScore
-	targetZeros := uint(math.Ceil(math.Log(float64(len(data)+nonceBytes)*targetScore) / ln3))
+	targetZeros := requiredTrailingZeros(len(data)+nonceBytes, targetScore)
 
 	workerWidth := math.MaxUint64 / uint64(w.numWorkers)
 	for i := 0; i < w.numWorkers; i++ {
@@ -93,6 +91,17 @@ func (w *Worker) Mine(ctx context.Context, data []byte, targetScore float64) (ui
 		return 0, ErrCancelled
 	}
 	return nonce, nil
+}
+
+// requiredTrailingZeros returns the smallest number z of trailing zero trits for which a
+// message of the given length reaches the target score, i.e. 3^z / msgLen >= targetScore,
+// computed exactly as Score does. It never exceeds the hash length.
+func requiredTrailingZeros(msgLen int, targetScore float64) uint {
+	z := 0
+	for z < consts.HashTrinarySize && math.Pow(consts.TrinaryRadix, float64(z))/float64(msgLen) < targetScore {
+		z++
+	}
+	return uint(z)
 }
 
 func (w *Worker) worker(powDigest []byte, startNonce uint64, target uint, done *uint32, counter *uint64) (uint64, error) {
